@@ -14,7 +14,9 @@ RULE = ('the C05 generator (2-5 chains on a 1/4-Angstrom lattice with distances 
         'start at a common number), the same number with a different residue name inside a chain, numbering that goes back, negative numbers. '
         'Every structure is run through get_contact_atoms(extend_to_residue=True) and through get_contact_residues with 2 cutoffs x all ordered chain '
         'pairs x the 8 combinations of only_backbone_atoms/excludeH/return_contact_pairs, and with allchains x the same 8; plus the malformed stream '
-        '(unknown chain, chain with itself, single-chain allchains, zero / negative cutoff) and the bundled 3CRO at 8.5 / 6.0 A (thorough: all chains of 3CRO, 3CRO_H, 1AK4 target). '
+        '(unknown chain, chain with itself, single-chain allchains, zero / negative cutoff), the C05 histories (one live object, calls alternating with '
+        'edits of one chain through the public API, each call judged on the table read back at that moment), no-contact / all-filtered-out structures '
+        'for every option combination in both modes, and the bundled 3CRO at 8.5 / 6.0 A (thorough: all chains of 3CRO, 3CRO_H, 1AK4 target). '
         'A case is counted non-trivial when its result is non-empty or an exception, distinct by (structure, arguments).')
 ASSUMPTIONS = list(c05.ASSUMPTIONS) + [
     'SQLite compares resSeq (INT column) with Python ints and resName / chainID (TEXT) with Python strs exactly (no affinity surprises for the generated values)',
@@ -30,6 +32,7 @@ def cases(ctx):
     out = c05.structure_cases(ctx, 'contact_atoms', ctx.scale(12, 90), family='extend', extends=(True,))
     out += c05.structure_cases(ctx, 'contact_residues', ctx.scale(14, 90), family='residues')
     out += c05.malformed_cases(ctx, 'contact_residues', ctx.scale(4, 30))
+    out += c05.history_cases(ctx, ['contact_residues', 'contact_atoms', 'extend'], ctx.scale(60, 500))
     out += c05.file_cases(ctx, 'contact_atoms', extends=(True,))
     out += c05.file_cases(ctx, 'contact_residues', heavy=False)
     return out
@@ -37,6 +40,39 @@ def cases(ctx):
 
 def search_cases(ctx):
     return c05.search_cases(ctx, 'contact_atoms', extends=(True,)) + c05.search_cases(ctx, 'contact_residues')
+
+
+def _views(lines, kw, bb):
+    """residue view / closure relations between calls of the real code on one structure; {} when all hold"""
+    bad = {}
+    db = interface(lines)
+    rows = db.get('chainID,resSeq,resName,name')
+    key = [(r[0], int(r[1]), r[2]) for r in rows]
+    tup = lambda x: (c05.as_str(x[0]), c05.as_int(x[1]), c05.as_str(x[2]))
+    kwj = {k: (float(v) if k == 'cutoff' else v) for k, v in kw.items()}
+    atoms = {c05.as_str(k): [c05.as_int(i) for i in v] for k, v in db.get_contact_atoms(**kw).items()}
+    pairs = {c05.as_int(k): [c05.as_int(i) for i in v] for k, v in db.get_contact_atoms(return_contact_pairs=True, **kw).items()}
+    resid = {c05.as_str(k): [tup(x) for x in v] for k, v in db.get_contact_residues(**kw).items()}
+    rpairs = {tup(k): [tup(x) for x in v] for k, v in db.get_contact_residues(return_contact_pairs=True, **kw).items()}
+    ext = {c05.as_str(k): [c05.as_int(i) for i in v] for k, v in db.get_contact_atoms(extend_to_residue=True, **kw).items()}
+    proj = {k: sorted(set(key[i] for i in v)) for k, v in atoms.items()}
+    if proj != resid:
+        bad['proj'] = {'lines': lines, 'kw': kwj, 'residues': resid, 'projection': proj}
+    pp = {}
+    for i, js in pairs.items():
+        pp.setdefault(key[i], set()).update(key[j] for j in js)
+    pp = {k: sorted(v) for k, v in pp.items()}
+    if pp != rpairs:
+        bad['pairs'] = {'lines': lines, 'kw': kwj, 'residue_pairs': {str(k): v for k, v in rpairs.items()},
+                        'projection': {str(k): v for k, v in pp.items()}}
+    clo = {}
+    for ch, v in atoms.items():
+        owners = set(key[i] for i in v)
+        clo[ch] = [i for i in range(len(rows)) if key[i] in owners and (not bb or rows[i][3] in BACKBONE)]
+    if clo != ext:
+        bad['ext'] = {'lines': lines, 'kw': kwj, 'extended': ext, 'closure': clo}
+    db._close()
+    return bad
 
 
 def extra_checks(ctx):
@@ -49,36 +85,17 @@ def extra_checks(ctx):
         table = gen_structure(rng)
         lines = to_lines(table)
         chains = sorted(set(l[21] for l in lines))
-        db = interface(lines)
-        rows = db.get('chainID,resSeq,resName,name')
-        key = [(r[0], int(r[1]), r[2]) for r in rows]
         cut = rng.choice(CUTS)
         bb, noH, allc = rng.random() < 0.5, rng.random() < 0.5, rng.random() < 0.4
         a, b = rng.sample(chains, 2)
         kw = dict(cutoff=cut, only_backbone_atoms=bb, excludeH=noH, allchains=allc, chain1=a, chain2=b)
-        atoms = {k: [int(i) for i in v] for k, v in db.get_contact_atoms(**kw).items()}
-        pairs = {int(k): [int(i) for i in v] for k, v in db.get_contact_atoms(return_contact_pairs=True, **kw).items()}
-        resid = {k: [(x[0], int(x[1]), x[2]) for x in v] for k, v in db.get_contact_residues(**kw).items()}
-        rpairs = {(k[0], int(k[1]), k[2]): [(x[0], int(x[1]), x[2]) for x in v]
-                  for k, v in db.get_contact_residues(return_contact_pairs=True, **kw).items()}
-        ext = {k: [int(i) for i in v] for k, v in db.get_contact_atoms(extend_to_residue=True, **kw).items()}
-        proj = {k: sorted(set(key[i] for i in v)) for k, v in atoms.items()}
-        if proj != resid:
-            bad_proj = bad_proj or {'lines': lines, 'kw': kw, 'residues': resid, 'projection': proj}
-        pp = {}
-        for i, js in pairs.items():
-            pp.setdefault(key[i], set()).update(key[j] for j in js)
-        pp = {k: sorted(v) for k, v in pp.items()}
-        if pp != rpairs:
-            bad_pairs = bad_pairs or {'lines': lines, 'kw': kw, 'residue_pairs': {str(k): v for k, v in rpairs.items()},
-                                      'projection': {str(k): v for k, v in pp.items()}}
-        clo = {}
-        for ch, v in atoms.items():
-            owners = set(key[i] for i in v)
-            clo[ch] = [i for i in range(len(rows)) if key[i] in owners and (not bb or rows[i][3] in BACKBONE)]
-        if clo != ext:
-            bad_ext = bad_ext or {'lines': lines, 'kw': kw, 'extended': ext, 'closure': clo}
-        db._close()
+        try:
+            r = _views(lines, kw, bb)
+        except Exception as e:       # an unexpected return shape or an exception of the library is a finding, not a harness failure
+            r = {'proj': {'lines': lines, 'kw': {k: (float(v) if k == 'cutoff' else v) for k, v in kw.items()}, 'raised': repr(e)[:300]}}
+        bad_proj = bad_proj or r.get('proj')
+        bad_pairs = bad_pairs or r.get('pairs')
+        bad_ext = bad_ext or r.get('ext')
     res.append({'name': f'contact residues = distinct triples of the contact atoms of the same call ({n} structures)', 'ok': bad_proj is None,
                 'case': bad_proj, 'detail': ''})
     res.append({'name': 'residue pair map = projection of the atom pair map of the same call', 'ok': bad_pairs is None, 'case': bad_pairs, 'detail': ''})
